@@ -77,6 +77,20 @@ def physical_line(text, lineno):
     return None
 
 
+# A line break inside a construct that may come in every blank-line style.  Written BRK in an entry text
+# and expanded by break_variants(): the plain break, trailing blanks / tabs before the break (after an
+# opening delimiter: "trailing blanks after the delimiter"), whitespace-only lines of blanks / tabs after
+# it, and a mix over several lines.  (CR LF is the case's terminator and applies to every "\n".)
+BRK = "\u23ce"
+BREAK_STYLES = [("plain", "\n"), ("trailing-blanks", "   \n"), ("trailing-tab", "\t\n"), ("blank-line-of-blanks", "\n    \n"),
+                ("blank-line-of-tabs", "\n\t\t\n"), ("empty-lines", "\n\n\n"), ("mixed", " \n\n\t \n  \n")]
+
+
+def break_variants(text):
+    """[(style name, text)] for every style; the BRK placeholders of one text all take the same style."""
+    return [(name, text.replace(BRK, b)) for name, b in BREAK_STYLES]
+
+
 def cosmetics(rng):
     """Seed-dependent free choices that must not change any verdict."""
     return {
